@@ -29,6 +29,7 @@ def run_shape(sc, inject=None, keep=False):
             'served': list(d.served) + [('own query',) + tuple(q) for q in d.own_queries],
             'proceed': [c[1] for c in d.proceed_calls],
             'notifies': d.notifies,
+            'cli': d.cli_addr,
             'states': d.snapshot_states(),
             'idle': d.idle_ref,
             'dead': d.dead(),
@@ -41,6 +42,7 @@ def run_shape(sc, inject=None, keep=False):
 def judge(base, run, variant, op):
     probs = []
     same_sa = variant.startswith('same_sa')
+    CLI = run['cli']
     intr_sa = CLI if same_sa else INTR
     # never handed to the application
     for a in run['proceed']:
@@ -94,11 +96,12 @@ def worker(item):
         acc.violation("HARNESS: the intruder-free transaction does not succeed", sc, None, [repr(_b(base['result']))])
         return acc
     n = base['nframes']
+    cli = sc['cfg'].get('cli', CLI)
     variants = {
         'other_sa_same_ptr': dm14_frame(INTR, op['address'], op.get('count', 1)),
         'other_sa_other_ptr': dm14_frame(INTR, OTHER_PTR, 2),
         'other_sa_write': dm14_frame(INTR, op['address'], 1, cmd=2),
-        'same_sa_other_ptr': dm14_frame(CLI, OTHER_PTR, 1),
+        'same_sa_other_ptr': dm14_frame(cli, OTHER_PTR, 1),
     }
     for vname, fr in variants.items():
         for k in range(0, n - 1):
@@ -151,6 +154,10 @@ def scenarios(tier):
         for n in lens:
             out.append({'cfg': {'seed': sd}, 'ops': [c17.rd(0x1000, n)]})
             out.append({'cfg': {'seed': sd}, 'ops': [c17.wr(0x1000, n)]})
+        # the running requester sits on source address 0x00 (engine #1: a legal, falsy address)
+        for n in (1, 9):
+            out.append({'cfg': {'seed': sd, 'cli': 0x00}, 'ops': [c17.rd(0x1000, n)]})
+            out.append({'cfg': {'seed': sd, 'cli': 0x00}, 'ops': [c17.wr(0x1000, n)]})
         # the serving ECU is itself a client of a third ECU right after respond() (its facade is then in its querying state
         # while the inbound transaction is still closing)
         for n in ((4, 30) if tier == 'quick' else (1, 4, 9, 30)):
@@ -185,7 +192,7 @@ def replay(rec):
         'other_sa_same_ptr': dm14_frame(INTR, op['address'], op.get('count', 1)),
         'other_sa_other_ptr': dm14_frame(INTR, OTHER_PTR, 2),
         'other_sa_write': dm14_frame(INTR, op['address'], 1, cmd=2),
-        'same_sa_other_ptr': dm14_frame(CLI, OTHER_PTR, 1),
+        'same_sa_other_ptr': dm14_frame(sc['cfg'].get('cli', CLI), OTHER_PTR, 1),
     }
     fr = variants[intr['variant']]
     inj = [(intr['after_frame'], fr)]
